@@ -6,6 +6,8 @@ CONSTANTS
   NB = 2
   MaxDepth = 5
   UseSystematic = FALSE
+  Bug = "none"
+  RandomPick = FALSE
   UsePreludes = FALSE
   WKey = 1
   WEnv = 1
